@@ -233,6 +233,10 @@ def run(ctx):
              'len in {0,1,2+}; TimeoutError on wait failure', floor=14)
     for fam in SA:
         call_result(ctx, SERVER[fam], 'C06.R6')
+    ctx.rule('C11.R1', 'outstanding callbacks are dropped when the client '
+             'disconnects (shared rule)', floor=3)
+    from .c11 import r1_sid_tables
+    r1_sid_tables(ctx)
     ctx.assume('histories with reconnects are covered only through table '
                'cleanup at disconnect (C11.R1)')
     ctx.assume('ack ids decoded from the wire are ints (default '
